@@ -56,7 +56,7 @@ func rotateTables(db clickhouse.Conn, clusterName string, distributed bool, days
 			insertTimeExpression,
 			intsevalSec)
 		if rp.MoveTo != "" {
-			rotateTTL += fmt.Sprintf(" TO DISK '" + rp.MoveTo + "'")
+			rotateTTL += " TO DISK '" + rp.MoveTo + "'"
 		}
 		rotateTTLArr = append(rotateTTLArr, rotateTTL)
 	}
